@@ -19,17 +19,16 @@ theorem reset_after_error (P : Params RL H) (c : Conn RL H) (inp : Recv) (c' : C
     (h : tryRead P c inp = (c', .parseErr e)) : ParserEq c' (Conn.new c.limit) := by
   exact reset_after_error' P c inp c' e h
 
-/-- What a read does depends only on the parser part: two connections (in states allowed by the
-    connection invariant, i.e. any reachable states — C03) that agree on it report the
+/-- What a read does depends only on the parser part: ANY two connections that agree on it (no
+    invariant is needed: the input side commutes with replacing the output-side fields) report the
     same outcome, agree on it afterwards, and append the same new deliveries and the same new
     interim responses to whatever they had queued. -/
-theorem read_depends_on_parser_only (P : Params RL H) (hP : P.WF) (c₁ c₂ : Conn RL H)
-    (hI₁ : Inv P c₁) (hI₂ : Inv P c₂) (h : ParserEq c₁ c₂) (inp : Recv) :
+theorem read_depends_on_parser_only (P : Params RL H) (c₁ c₂ : Conn RL H)
+    (h : ParserEq c₁ c₂) (inp : Recv) :
     (tryRead P c₁ inp).2 = (tryRead P c₂ inp).2 ∧
     ParserEq (tryRead P c₁ inp).1 (tryRead P c₂ inp).1 ∧
     ∃ dp dq, (tryRead P c₁ inp).1.parsed = c₁.parsed ++ dp ∧ (tryRead P c₂ inp).1.parsed = c₂.parsed ++ dp ∧
              (tryRead P c₁ inp).1.respQ = c₁.respQ ++ dq ∧ (tryRead P c₂ inp).1.respQ = c₂.respQ ++ dq := by
-  have _ := hP; have _ := hI₁; have _ := hI₂  -- (not needed: the parse functions never inspect the output side)
   exact read_depends_on_parser_only' P c₁ c₂ h inp
 
 /-- run a list of reads, collecting outcomes -/
@@ -44,7 +43,7 @@ def runReads (P : Params RL H) : Conn RL H → List Recv → Conn RL H × List R
     segmentation, any failed reads in between) is handled exactly as a new connection with the same
     configuration handles it: same outcomes (errors included), same delivered requests, same
     interim responses. -/
-theorem after_error_like_new (P : Params RL H) (hP : P.WF) (c : Conn RL H) (hI : Inv P c)
+theorem after_error_like_new (P : Params RL H) (c : Conn RL H)
     (inp : Recv) (c' : Conn RL H) (e : ReqErr)
     (h : tryRead P c inp = (c', .parseErr e)) (inputs : List Recv) :
     (runReads P c' inputs).2 = (runReads P (Conn.new c.limit) inputs).2 ∧
@@ -52,7 +51,6 @@ theorem after_error_like_new (P : Params RL H) (hP : P.WF) (c : Conn RL H) (hI :
              (runReads P (Conn.new c.limit : Conn RL H) inputs).1.parsed = dp ∧
              (runReads P c' inputs).1.respQ = c'.respQ ++ dq ∧
              (runReads P (Conn.new c.limit : Conn RL H) inputs).1.respQ = dq := by
-  have _ := hP; have _ := hI  -- (not needed: the parse functions never inspect the output side)
   have heq : ∀ (is : List Recv) (c : Conn RL H), runReads P c is = runReads' P c is := by
     intro is
     induction is with
